@@ -318,10 +318,13 @@ class iindex(dict):
             try:
                 if len(values) == 0:
                     values = values.astype(int)  # So bincount doesn't error.
+                elif values.max() > numpy.iinfo(numpy.int32).max:
+                    # bincount would allocate max(values) + 1 slots.
+                    raise ValueError("Values too large for bincount.")
                 bcounts = numpy.bincount(values.flat)
                 distinct_values = bcounts.nonzero()[0].tolist()
                 counts = {i: bcounts[i].item() for i in distinct_values}
-            except (ValueError, TypeError):
+            except (ValueError, TypeError, MemoryError):
                 try:
                     distinct_values, ucounts = numpy.unique(
                         values.flat, return_counts=True
